@@ -38,6 +38,8 @@ func checkC14(c *Check) {
 	// (an EXECVE record can carry several kilobytes of arguments): the pipe
 	// is read with an accumulating primitive (rules of C12)
 	ng += importRules(c, "C12", checkC12, "record-group-complete: ", "framing-primitive", "once-verbatim-in-order")
+	// ... and unmodified: the audit pipeline's callback hands on the record it was given (rule of C07)
+	ng += importRules(c, "C07", checkC07, "record-group-complete: ", "audit-record-handed-on")
 	c.Floor("imported record-group-complete obligations", 8, ng)
 }
 
@@ -540,6 +542,37 @@ func callbackPipeline(c *Check) {
 	c.Cond(arg.K == "call" && arg.V == ssa.Value(co) && arg.Idx == 0, "callback-pipeline", name+": value handed to the correlator", p.InstrPos(hand), "result 0 of CoalesceMessages", "the correlator receives "+trimOrg(arg.String())+", not the coalesced event")
 	ao := r.Of(co.Call.Args[0])
 	c.Cond(ao.K == "param", "callback-pipeline", name+": messages coalesced", p.InstrPos(co), "the callback's own argument", "CoalesceMessages is applied to "+trimOrg(ao.String()))
+	// ... in the order the reassembler delivered them: the record list is
+	// not handed to anything (a sort, a filter, a helper) before it is
+	// coalesced; the library summarises an event from the first record of
+	// the group, so the order is part of the input
+	if prm, isPrm := ao.V.(*ssa.Parameter); isPrm && ao.K == "param" {
+		if rr := prm.Referrers(); rr != nil {
+			for _, u := range *rr {
+				ci, isCall := u.(ssa.CallInstruction)
+				if !isCall || ci == ssa.CallInstruction(co) {
+					if st, isSt := u.(*ssa.Store); isSt && st.Val == ssa.Value(prm) {
+						continue // spilled for a closure: judged through its loads below
+					}
+					continue
+				}
+				if bi, isB := ci.Common().Value.(*ssa.Builtin); isB && (bi.Name() == "len" || bi.Name() == "cap") {
+					continue
+				}
+				if reachesInstr(ci, co) || ci.Block() == co.Block() {
+					c.Bad("callback-pipeline", name+": record list passed to "+calleeName(ci.Common())+" before it is coalesced", p.InstrPos(ci), "the list of records is handed to another function before CoalesceMessages (a sort, a filter, a rewrite): the event is summarised from the first record of the group, so a re-ordered or shortened list yields a different action, object or process arguments")
+				}
+			}
+		}
+		allInstrs(fn, func(in ssa.Instruction) {
+			// element writes: msgs[i] = ...
+			if st, ok := in.(*ssa.Store); ok {
+				if ia, ok := st.Addr.(*ssa.IndexAddr); ok && strip(ia.X) == ssa.Value(prm) {
+					c.Bad("callback-pipeline", name+": record list modified before it is coalesced", p.InstrPos(in), "an element of the record list is overwritten before CoalesceMessages")
+				}
+			}
+		})
+	}
 	// ResolveIDs dominates the hand-over, applied to the same event
 	res := false
 	allInstrs(fn, func(in ssa.Instruction) {
